@@ -6,6 +6,8 @@
 \*            gen:conc2f    ProcsC1 = {p1} ProcsC2 = {p2}      n1  2 calls/process 1 lookup process  1 failing write
 \*            gen:seq       Serial, Create/Delete/Update, 2 calls/process, 2 lookups, 1 legacy mapping (here/other node)
 \*            gen:del3      ProcsC1 = {p1, p3, p4} delete only, ProcsC2 = {p2} creates only, n1, 1 call/process, 1 lookup
+\*            gen:delf      Serial, p1 (owner, repository) deletes twice, p2 claims, 2 lookups; DelFaults: any one storage
+\*                          operation of DeleteMapping fails once (then the retry, the re-claim, the lookups)
 \*            gen:spell     Serial, Create/Delete, 2 calls/process, 2 lookups, all six Host / subdomain spellings
 \*            legacy:conc3, legacy:seq   Fix = FALSE, CaseFold = FALSE (the code before the two repairs), no invariants
 \*            legacy:dev:conflict-unlock  the del3 configuration with Deviate = {"conflictUnlock"}
@@ -15,7 +17,7 @@
 \*            gen:seqf (Serial + failing write), legacy:conc2f
 \*            mc:guess (Guess = TRUE), mc:conc3x2 (2 calls/process, no lookup process), mc:conc2:2names (+ failing
 \*            write), mc:seq:3ops, mc:spell:3ops
-\* Invariants: OneOwner RouteOK OwnerOnly LockHeld OnlyHolderUnlocks LookupPure Consistent Claimable NoIndexTheft; configurations with legacy mappings
+\* Invariants: OneOwner RouteOK OwnerOnly LockHeld OnlyHolderUnlocks LookupPure RegisterAtomic Consistent Claimable NoIndexTheft; configurations with legacy mappings
 \* use OneOwnerX / RouteOKX (the two legacy deviations are recorded known findings and must not hide other routes).
 CONSTANTS
   ProcsC1 = @@P1@@
@@ -37,6 +39,7 @@ CONSTANTS
   OnlyDelete = @@ONLYDEL@@
   OnlyCreate = @@ONLYCRE@@
   Deviate = @@DEVIATE@@
+  DelFaults = @@DELFAULTS@@
   Emit = @@EMIT@@
 INIT Init
 NEXT Next
